@@ -347,24 +347,27 @@ Definition finish_read (t : vtype) (p : rplan) (fetched : list value) : res (lis
   | Some _ => bind (conv_all t fetched) (fun vs => Ok (overlay vs (rp_pre p)))
   end.
 
-(** [Block::createDataFrame] on a fresh block (front-end: every column type must be one a Variant
-    supports -- Nothing passes that test --, names unique) + [DataFrameHDF5::createData] *)
+(** [Block::createDataFrame] on a fresh block, as of /repo a3cfdfc.  Front-end, in this order: name/type
+    checks and the duplicate-entity check (pass: fresh block, fixed name); an EMPTY column list is refused
+    (std::invalid_argument); then per column, in order: type Nothing or a type no Variant supports ->
+    std::invalid_argument, a name seen before -> ConsistencyError.  Nothing is created before these pass. *)
 Fixpoint check_cols (cols : list column) (seen : list string) : res unit :=
   match cols with
   | [] => Ok tt
   | c :: r =>
-    if negb (supported (c_type c) || vtype_eqb (c_type c) (TBad "Nothing")) then Err INVARG
+    if negb (supported (c_type c)) then Err INVARG
     else if existsb (String.eqb (c_name c)) seen then Err "nix::ConsistencyError"
     else check_cols r (c_name c :: seen)
   end.
 
 Definition plan_create (cols : list column) : res unit :=
+  if is_nil cols then Err INVARG
+  else
   bind (check_cols cols []) (fun _ =>
-  (* from here on the entity group exists already (DESIGN.md section 9 item 26): a failure leaves a
-     frame without data behind; cases end at a rejected create, so that state is not modelled *)
-  if negb (forallb (fun c => supported (c_type c)) cols) then Err INVARG      (* data_type_to_h5_filetype(Nothing) *)
-  else if is_nil cols then Err H5EXC                                           (* makeCompound(0) *)
-  else if existsb (fun c => is_empty (c_name c)) cols then Err H5ERR           (* H5Tinsert with an empty name *)
+  (* [DataFrameHDF5::createData]: every member type is storable and there is at least one member now; the one
+     post-creation failure that stays reachable is H5Tinsert with an EMPTY column name (H5Error after the
+     entity group exists -- the C08 kind of trace; cases end at a rejected create, that state is not modelled) *)
+  if existsb (fun c => is_empty (c_name c)) cols then Err H5ERR
   else Ok tt).
 
 Definition answer_cells (cs : list (Z * string * nat)) (get : nat -> value) : list rcell :=
